@@ -55,6 +55,17 @@ def run(ctx):
         return lines
     VC.run(ctx, [swcfg], gen2, n // 2, preds=(VC.fault_pred, VC.oracle_pred), nontrivial=lambda c, l, o: any(x.startswith('sw2') for x in l),
            label='C06 swap2 hand-over')
+    # ... and between size types of different width: a buffer whose capacity does not fit the narrower size_type must not change owner
+    # (its capacity would be narrowed and the block handed back with a wrong count)
+    swcfg8 = V.VecCfg('small', 3, 'U8', 'ntr', alloc=0, pool=2, partner=('std', 0, 'U32', 0), pool2=2)
+    def gen3(rng, c, k):
+        lines = gen2(rng, c, k)[:-1]
+        for _ in range(3):
+            lines.insert(rng.randrange(len(lines) + 1), f'rsv2 {rng.randrange(2)} {rng.choice([20, 300, 300, 600])}')
+        lines.append('new')
+        return lines
+    VC.run(ctx, [swcfg8], gen3, n // 2, preds=(VC.fault_pred, VC.oracle_pred), nontrivial=lambda c, l, o: any(x.startswith('sw2') for x in l),
+           label='C06 swap2 hand-over, narrow and wide size types')
     ctx.assume('allocators are stateless (always compare equal), as in the property; FlatSet(vector&&) / steal_vector hand-over is exercised by C03')
 
 def replay(ctx, path):
